@@ -197,4 +197,159 @@ theorem cpuUpdate_eq {c : Cpu} {vn vp vt vr va : Value} (h : CpuChansOK c vn vp 
     generalize List.filter (fun t : Thread => t.state.isActive) _ = a
     rcases r with _ | ⟨t, _ | ⟨t', r⟩⟩ <;> rfl
 
+/-! ### list utilities -/
+
+theorem filter_set_irrelevant {α} (p : α → Bool) (b : α) :
+    ∀ (l : List α) (i : Nat) (a : α), l[i]? = some a → p a = false → p b = false →
+      (l.set i b).filter p = l.filter p
+  | [], _, _, h, _, _ => by simp at h
+  | x :: xs, 0, a, h, ha, hb => by
+    simp at h; subst h
+    simp [ha, hb]
+  | x :: xs, i + 1, a, h, ha, hb => by
+    simp at h
+    simp [List.filter_cons, filter_set_irrelevant p b xs i a h ha hb]
+
+theorem range_filter_filterMap {α} (p : α → Bool) (ths : List α) :
+    ∀ n, n ≤ ths.length →
+      ((List.range n).filter (fun i => (ths[i]?).any p)).filterMap (fun i => ths[i]?) = (ths.take n).filter p
+  | 0, _ => by simp
+  | n + 1, h => by
+    have ih := range_filter_filterMap p ths n (by omega)
+    have hn : n < ths.length := by omega
+    rw [List.range_succ, List.filter_append, List.filterMap_append, ih, List.take_add_one,
+      List.filter_append]
+    congr 1
+    simp [List.getElem?_eq_getElem hn, List.filter_cons]
+    by_cases hp : p ths[n] = true <;> simp [hp, List.getElem?_eq_getElem hn]
+
+/-- the threads listed by a duplicate-free index list that contains exactly the
+    indices of the threads satisfying `p` are a permutation of `ths.filter p` -/
+theorem filterMap_perm_filter {α} (p : α → Bool) (ths : List α) (l : List Nat) (hnd : l.Nodup)
+    (hmem : ∀ i, i ∈ l ↔ ∃ t, ths[i]? = some t ∧ p t = true) :
+    (l.filterMap (fun i => ths[i]?)).Perm (ths.filter p) := by
+  have h1 : l.Perm ((List.range ths.length).filter (fun i => (ths[i]?).any p)) := by
+    rw [List.perm_ext_iff_of_nodup hnd (List.nodup_range.filter _)]
+    intro i
+    rw [hmem, List.mem_filter, List.mem_range]
+    constructor
+    · rintro ⟨t, ht, hp⟩
+      have hi : i < ths.length := by
+        rcases Nat.lt_or_ge i ths.length with h | h
+        · exact h
+        · rw [List.getElem?_eq_none h] at ht; cases ht
+      exact ⟨hi, by simp [ht, hp]⟩
+    · rintro ⟨hi, hp⟩
+      rw [List.getElem?_eq_getElem hi] at hp
+      exact ⟨ths[i], List.getElem?_eq_getElem hi, by simpa using hp⟩
+  have h2 := h1.filterMap (fun i => ths[i]?)
+  rw [range_filter_filterMap p ths ths.length (Nat.le_refl _), List.take_length] at h2
+  exact h2
+
+
+/-! ### `cpu_update` only reads state / tid / pid / gindex of the listed threads,
+    and only up to the order of the list -/
+
+/-- what `cpu_update` reads of a thread -/
+def Thread.key (t : Thread) : ThState × Int × Int × Nat := (t.state, t.tid, t.pid, t.gindex)
+
+def uniqK (l : List (ThState × Int × Int × Nat)) (f : ThState × Int × Int × Nat → Int) : Value :=
+  match l with
+  | [k] => .int (f k)
+  | _ => .null
+
+theorem uniq_key (l : List Thread) (f : ThState × Int × Int × Nat → Int) :
+    uniq l (fun t => f t.key) = uniqK (l.map Thread.key) f := by
+  rcases l with _ | ⟨t, _ | ⟨t', r⟩⟩ <;> rfl
+
+theorem runOf_key (b : List Thread) :
+    (runOf b).map Thread.key = (b.map Thread.key).filter (fun k => k.1 = .running) := by
+  unfold runOf; rw [List.filter_map]; rfl
+
+theorem actOf_key (b : List Thread) :
+    (actOf b).map Thread.key = (b.map Thread.key).filter (fun k => k.1.isActive) := by
+  unfold actOf; rw [List.filter_map]; rfl
+
+theorem runOf_length_key (b : List Thread) :
+    (runOf b).length = ((b.map Thread.key).filter (fun k => k.1 = .running)).length := by
+  rw [← runOf_key, List.length_map]
+
+theorem uniq_congr_key (f : ThState × Int × Int × Nat → Int) {l l' : List Thread}
+    (h : l.map Thread.key = l'.map Thread.key) :
+    uniq l (fun t => f t.key) = uniq l' (fun t => f t.key) := by
+  rw [uniq_key, uniq_key, h]
+
+theorem withVals_congr (c : Cpu) {b b' : List Thread} (h : b.map Thread.key = b'.map Thread.key) :
+    c.withVals b = c.withVals b' := by
+  have hr : (runOf b).map Thread.key = (runOf b').map Thread.key := by rw [runOf_key, runOf_key, h]
+  have ha : (actOf b).map Thread.key = (actOf b').map Thread.key := by rw [actOf_key, actOf_key, h]
+  have e1 : uniq (runOf b) (·.tid) = uniq (runOf b') (·.tid) := uniq_congr_key (fun k => k.2.1) hr
+  have e2 : uniq (runOf b) (·.pid) = uniq (runOf b') (·.pid) := uniq_congr_key (fun k => k.2.2.1) hr
+  have e3 : uniq (runOf b) (fun t => (t.gindex : Int)) = uniq (runOf b') (fun t => (t.gindex : Int)) :=
+    uniq_congr_key (fun k => (k.2.2.2 : Int)) hr
+  have e4 : (runOf b).length = (runOf b').length := by rw [runOf_length_key, runOf_length_key, h]
+  have e5 : uniq (actOf b) (fun t => (t.gindex : Int)) = uniq (actOf b') (fun t => (t.gindex : Int)) :=
+    uniq_congr_key (fun k => (k.2.2.2 : Int)) ha
+  unfold Cpu.withVals
+  rw [e1, e2, e3, e4, e5]
+
+theorem uniq_perm {l l' : List Thread} (h : l.Perm l') (f : Thread → Int) : uniq l f = uniq l' f := by
+  rcases l with _ | ⟨t, _ | ⟨t', r⟩⟩
+  · rw [List.nil_perm.mp h]
+  · rw [List.singleton_perm.mp h]
+  · have hl := h.length_eq
+    rcases l' with _ | ⟨u, _ | ⟨u', r'⟩⟩
+    · simp at hl
+    · simp at hl
+    · rfl
+
+theorem withVals_perm (c : Cpu) {b b' : List Thread} (h : b.Perm b') : c.withVals b = c.withVals b' := by
+  have hr : (runOf b).Perm (runOf b') := h.filter _
+  have ha : (actOf b).Perm (actOf b') := h.filter _
+  unfold Cpu.withVals
+  rw [uniq_perm hr, uniq_perm hr, uniq_perm hr, uniq_perm ha, hr.length_eq]
+
+theorem boundOf_key_congr {ths ths2 : List Thread} :
+    ∀ (l : List Nat), (∀ i ∈ l, (ths[i]?).map Thread.key = (ths2[i]?).map Thread.key) →
+      (boundOf ths l).map Thread.key = (boundOf ths2 l).map Thread.key
+  | [], _ => rfl
+  | i :: l, h => by
+    have ih := boundOf_key_congr l (fun j hj => h j (List.mem_cons_of_mem _ hj))
+    have hi := h i (List.mem_cons_self)
+    unfold boundOf at ih ⊢
+    simp only [List.filterMap_cons]
+    cases h1 : ths[i]? <;> cases h2 : ths2[i]? <;> simp [h1, h2] at hi ⊢
+    · exact ih
+    · exact ⟨hi, ih⟩
+
+/-- the threads whose `cpu` field names CPU `g` (the specification's notion of "bound to") -/
+def onCpu (ths : List Thread) (g : Nat) : List Thread := ths.filter (fun t => t.cpu == some g)
+
+/-- the CPU's thread list lists exactly the threads whose `cpu` field names it, once each -/
+structure Membership (ths : List Thread) (g : Nat) (l : List Nat) : Prop where
+  nodup : l.Nodup
+  mem : ∀ i, i ∈ l ↔ ∃ t, ths[i]? = some t ∧ t.cpu = some g
+
+theorem boundOf_perm_onCpu {ths : List Thread} {g : Nat} {l : List Nat} (h : Membership ths g l) :
+    (boundOf ths l).Perm (onCpu ths g) := by
+  apply filterMap_perm_filter (fun t => t.cpu == some g) ths l h.nodup
+  intro i; rw [h.mem]; simp
+
+/-- `cpu_update` evaluated on thread table `ths` with list `l` computes the values the
+    specification reads off `ths2`, when `ths` and `ths2` agree on what `cpu_update` reads -/
+theorem withVals_spec (c : Cpu) {ths ths2 : List Thread} {g : Nat} {l : List Nat}
+    (hagree : ∀ i ∈ l, (ths[i]?).map Thread.key = (ths2[i]?).map Thread.key)
+    (hm : Membership ths2 g l) :
+    c.withVals (boundOf ths l) = c.withVals (onCpu ths2 g) := by
+  rw [withVals_congr c (boundOf_key_congr l hagree)]
+  exact withVals_perm c (boundOf_perm_onCpu hm)
+
+theorem runOf_length_spec {ths ths2 : List Thread} {g : Nat} {l : List Nat}
+    (hagree : ∀ i ∈ l, (ths[i]?).map Thread.key = (ths2[i]?).map Thread.key)
+    (hm : Membership ths2 g l) :
+    (runOf (boundOf ths l)).length = (runOf (onCpu ths2 g)).length := by
+  rw [runOf_length_key, boundOf_key_congr l hagree, ← runOf_length_key]
+  exact ((boundOf_perm_onCpu hm).filter _).length_eq
+
+
 end Ovni.Emu
